@@ -42,3 +42,29 @@ func runModel(lines []string) ([]string, error) {
 	}
 	return out, nil
 }
+
+// runModelParallel runs one mbmodel process per line (for a few expensive lines).
+func runModelParallel(lines []string) ([]string, error) {
+	out := make([]string, len(lines))
+	errs := make([]error, len(lines))
+	done := make(chan int, len(lines))
+	for i := range lines {
+		go func(i int) {
+			o, err := runModel([]string{lines[i]})
+			if err == nil {
+				out[i] = o[0]
+			}
+			errs[i] = err
+			done <- i
+		}(i)
+	}
+	for range lines {
+		<-done
+	}
+	for _, e := range errs {
+		if e != nil {
+			return nil, e
+		}
+	}
+	return out, nil
+}
